@@ -81,12 +81,13 @@ theorem authorizeClaims_nebula {t : Token} {o : Oidc} {p : Plan} (h : authorizeC
           · exact .inr h2
           · exact absurd ⟨h1, h2⟩ hc
 
-theorem signSSH_issued {ca : CAKeys} {p : Plan} {req : Opts} {key : KeyClass} {c : Cert} {sg : Signer}
-    (h : signSSH ca p req key = .issued c sg) :
+theorem signSSH_issued {ca : CAKeys} {p : Plan} {req : Opts} {key : KeyClass} {tv rv : RVal} {c : Cert} {sg : Signer}
+    (h : signSSH ca p req key tv rv = .issued c sg) :
     validateOpts req = true ∧ checkOpts req p.checks = none ∧ applyTemplate p req = .cert c ∧
     selectSigner ca c.ct 500 = .inr sg ∧ keyStatus key = none ∧ c.keyID ≠ [] ∧
     storeOK ca c.principals = true ∧
-    (ca.emptyPrincipalCheck = true → [] ∉ c.principals) := by
+    (ca.emptyPrincipalCheck = true → [] ∉ c.principals) ∧
+    validityMismatch tv rv = false ∧ modifyValidityBad rv = false := by
   unfold signSSH at h
   split at h
   · cases h
@@ -96,27 +97,34 @@ theorem signSSH_issued {ca : CAKeys} {p : Plan} {req : Opts} {key : KeyClass} {c
     · rename_i hc
       split at h
       · cases h
-      · rename_i c' ht
+      · rename_i hvm
         split at h
         · cases h
-        · rename_i sg' hs
+        · rename_i c' ht
           split at h
           · cases h
-          · rename_i hk
+          · rename_i hmv
             split at h
             · cases h
-            · split at h
+            · rename_i sg' hs
+              split at h
               · cases h
-              · split at h
+              · rename_i hk
+                split at h
                 · cases h
-                · rename_i hid hep hst
-                  injection h with h1 h2
-                  subst h1 h2
-                  exact ⟨by simpa using hv, hc, ht, hs, hk, hid, by simpa using hst, by simpa using hep⟩
+                · split at h
+                  · cases h
+                  · split at h
+                    · cases h
+                    · rename_i hid hep hst
+                      injection h with h1 h2
+                      subst h1 h2
+                      exact ⟨by simpa using hv, hc, ht, hs, hk, hid, by simpa using hst, by simpa using hep,
+                        by simpa using hvm, by simpa using hmv⟩
 
-theorem sshSign_issued {ca : CAKeys} {prov : Prov} {t : Token} {o : Oidc} {req : Opts} {key : KeyClass}
-    {c : Cert} {sg : Signer} (h : sshSign ca prov t o req key = .issued c sg) :
-    ∃ p, authorizeSign prov t o = .ok p ∧ signSSH ca p req key = .issued c sg := by
+theorem sshSign_issued {ca : CAKeys} {prov : Prov} {t : Token} {o : Oidc} {req : Opts} {key : KeyClass} {rv : RVal}
+    {c : Cert} {sg : Signer} (h : sshSign ca prov t o req key rv = .issued c sg) :
+    ∃ p, authorizeSign prov t o = .ok p ∧ signSSH ca p req key ⟨o.tva, o.tvb⟩ rv = .issued c sg := by
   unfold sshSign at h
   split at h
   · cases h
@@ -144,8 +152,8 @@ theorem selectSigner_inr {ca : CAKeys} {ct u : Nat} {sg : Signer} (h : selectSig
     principals stated in the token (user / the subject / the subject when absent) — for every
     request-option record, every key and every signer configuration. -/
 theorem ssh_cert_fields (ca : CAKeys) (prov : Prov) (hp : prov = .jwk ∨ prov = .x5c) (t : Token) (o : Oidc)
-    (req : Opts) (key : KeyClass) (c : Cert) (sg : Signer)
-    (h : sshSign ca prov t o req key = .issued c sg) :
+    (req : Opts) (key : KeyClass) (rv : RVal) (c : Cert) (sg : Signer)
+    (h : sshSign ca prov t o req key rv = .issued c sg) :
     ∃ opts ct, t.ssh = some opts ∧ tokenType opts = some ct ∧ c = tokenCert t.sub opts ct := by
   obtain ⟨p, hp', hs⟩ := sshSign_issued h
   obtain ⟨opts, ct, h1, h2, rfl⟩ := authorizeSign_tok prov hp t o p hp'
@@ -155,16 +163,16 @@ theorem ssh_cert_fields (ca : CAKeys) (prov : Prov) (hp : prov = .jwk ∨ prov =
   exact ⟨opts, ct, h1, h2, ht.symm⟩
 
 example :
-    sshSign ⟨true, true, true, false⟩ .jwk ⟨s "alice", some ⟨s "host", [], [s "a.example.com", s "b.example.com"]⟩⟩ ⟨[], [], [], [], []⟩
-      ⟨[], s "attacker", [s "A.example.com"]⟩ .ok
+    sshSign ⟨true, true, true, false⟩ .jwk ⟨s "alice", some ⟨s "host", [], [s "a.example.com", s "b.example.com"]⟩⟩ ⟨[], [], [], [], [], none, none⟩
+      ⟨[], s "attacker", [s "A.example.com"]⟩ .ok noVal
     = .issued ⟨2, s "alice", [s "a.example.com", s "b.example.com"]⟩ .hostKey := by decide
 
 /-- **nebula_ssh_fields.** A certificate issued for a Nebula token is a *host* certificate signed
     with the host key; its principals are the token's — each of which is the Nebula certificate's
     name or parses as one of its addresses — or, when the token lists none, the certificate's name
     and addresses; the key id is the token's or the subject. -/
-theorem nebula_ssh_fields (ca : CAKeys) (t : Token) (o : Oidc) (req : Opts) (key : KeyClass)
-    (c : Cert) (sg : Signer) (h : sshSign ca .nebula t o req key = .issued c sg) :
+theorem nebula_ssh_fields (ca : CAKeys) (t : Token) (o : Oidc) (req : Opts) (key : KeyClass) (rv : RVal)
+    (c : Cert) (sg : Signer) (h : sshSign ca .nebula t o req key rv = .issued c sg) :
     c.ct = 2 ∧ sg = .hostKey ∧
     ((t.ssh = none ∧ c.keyID = t.sub ∧ c.principals = o.nebName :: o.nebIPs) ∨
      (∃ opts, t.ssh = some opts ∧ nebPrincipalsValid o opts.principals = true ∧
@@ -203,24 +211,24 @@ theorem nebPrincipalsValid_sound (o : Oidc) (ps : List Str)
     | some a => exact .inr ⟨a, rfl, by simpa using h1⟩
 
 example :
-    sshSign ⟨true, true, true, false⟩ .nebula ⟨s "host-a.neb", none⟩ ⟨[], [], s "host-a.neb", [s "10.1.1.7"], []⟩
-      ⟨s "user", s "x", [s "root"]⟩ .ok
+    sshSign ⟨true, true, true, false⟩ .nebula ⟨s "host-a.neb", none⟩ ⟨[], [], s "host-a.neb", [s "10.1.1.7"], [], none, none⟩
+      ⟨s "user", s "x", [s "root"]⟩ .ok noVal
     = .issued ⟨2, s "host-a.neb", [s "host-a.neb", s "10.1.1.7"]⟩ .hostKey := by decide
 
 /-- a Nebula token that lists a foreign principal is not even authorized -/
 example :
     sshSign ⟨true, true, true, false⟩ .nebula ⟨s "host-a.neb", some ⟨[], [], [s "other.neb"]⟩⟩
-      ⟨[], [], s "host-a.neb", [s "10.1.1.7"], [none]⟩ ⟨[], [], []⟩ .ok = .refused 401 := by decide
+      ⟨[], [], s "host-a.neb", [s "10.1.1.7"], [none], none, none⟩ ⟨[], [], []⟩ .ok noVal = .refused 401 := by decide
 
 /-! ## 2. request_cannot_extend -/
 
-/-- **request_cannot_extend.** With the default template (JWK, X5C, OIDC non-administrator) the
+/-- **request_cannot_extend.** With the default template (JWK, X5C, OIDC non-administrator, Nebula) the
     request options can make the request fail but never change the result: any two requests
     that are both issued under the same token get the same certificate fields and signer. -/
-theorem request_cannot_extend (ca : CAKeys) (prov : Prov) (hp : prov ≠ .oidc true) (t : Token) (o : Oidc)
-    (req req' : Opts) (key key' : KeyClass) (c c' : Cert) (sg sg' : Signer)
-    (h : sshSign ca prov t o req key = .issued c sg)
-    (h' : sshSign ca prov t o req' key' = .issued c' sg') : c = c' ∧ sg = sg' := by
+theorem request_cannot_extend (ca : CAKeys) (prov : Prov) (hp : prov ≠ .oidc true) (hk : prov ≠ .k8ssa) (t : Token) (o : Oidc)
+    (req req' : Opts) (key key' : KeyClass) (rv rv' : RVal) (c c' : Cert) (sg sg' : Signer)
+    (h : sshSign ca prov t o req key rv = .issued c sg)
+    (h' : sshSign ca prov t o req' key' rv' = .issued c' sg') : c = c' ∧ sg = sg' := by
   obtain ⟨p, hp1, hs⟩ := sshSign_issued h
   obtain ⟨p', hp2, hs'⟩ := sshSign_issued h'
   rw [hp1] at hp2; injection hp2 with hp2; subst hp2
@@ -237,6 +245,7 @@ theorem request_cannot_extend (ca : CAKeys) (prov : Prov) (hp : prov ≠ .oidc t
       | true => exact absurd rfl hp
       | false => have := (authorizeSign_ok hp1).2; simp [authorizeClaims] at this; rw [← this]
     | nebula => exact (authorizeClaims_nebula (authorizeSign_ok hp1).2).1
+    | k8ssa => exact absurd rfl hk
   simp only [applyTemplate, hd] at ht ht'
   rw [ht] at ht'; injection ht' with hcc
   subst hcc
@@ -258,8 +267,8 @@ theorem containsAllMembers_sound (g sub : List Str) (h : containsAllMembers g su
     exact ⟨y, hy, he.symm⟩
 
 theorem accepted_request_shape (ca : CAKeys) (prov : Prov) (hp : prov = .jwk ∨ prov = .x5c) (t : Token) (o : Oidc)
-    (req : Opts) (key : KeyClass) (c : Cert) (sg : Signer)
-    (h : sshSign ca prov t o req key = .issued c sg) :
+    (req : Opts) (key : KeyClass) (rv : RVal) (c : Cert) (sg : Signer)
+    (h : sshSign ca prov t o req key rv = .issued c sg) :
     ∃ opts, t.ssh = some opts ∧
       (req.certType = [] ∨ opts.certType = [] ∨ req.certType = opts.certType) ∧
       (req.principals = [] ∨ opts.principals = [] ∨
@@ -297,12 +306,163 @@ theorem accepted_request_shape (ca : CAKeys) (prov : Prov) (hp : prov = .jwk ∨
           exact containsAllMembers_sound _ _ this
     · cases hc
 
+/-! ## 2b. validity overrides -/
+
+/-- **request_validity_cannot_change.** For an issued certificate every bound the token fixes is
+    either not mentioned by the request or repeated exactly; and a bound fixed by the token is the
+    bound of the certificate (`certValidity`), whatever the request says — for every provisioner,
+    token, request and key. (Which value the CA picks when nobody fixes a bound, and the duration
+    limits, are C06.) -/
+theorem request_validity_cannot_change (ca : CAKeys) (prov : Prov) (t : Token) (o : Oidc) (req : Opts)
+    (key : KeyClass) (rv : RVal) (c : Cert) (sg : Signer)
+    (h : sshSign ca prov t o req key rv = .issued c sg) :
+    (∀ a b, o.tva = some a → rv.va = some b → a = b) ∧
+    (∀ a b, o.tvb = some a → rv.vb = some b → a = b) ∧
+    (∀ a, o.tva = some a → (certValidity ⟨o.tva, o.tvb⟩ rv).va = some a) ∧
+    (∀ b, o.tvb = some b → (certValidity ⟨o.tva, o.tvb⟩ rv).vb = some b) := by
+  obtain ⟨p, _, hs⟩ := sshSign_issued h
+  obtain ⟨_, _, _, _, _, _, _, _, hvm, _⟩ := signSSH_issued hs
+  simp only [validityMismatch, Bool.or_eq_false_iff] at hvm
+  refine ⟨?_, ?_, ?_, ?_⟩
+  · intro a b ha hb; have := hvm.1; simp [ha, hb] at this; exact this
+  · intro a b ha hb; have := hvm.2; simp [ha, hb] at this; exact this
+  · intro a ha; simp [certValidity, ha]
+  · intro b hb; simp [certValidity, hb]
+
+/-- a request that contradicts a bound of the token is refused -/
+theorem request_validity_mismatch_refused (ca : CAKeys) (prov : Prov) (t : Token) (o : Oidc) (req : Opts)
+    (key : KeyClass) (rv : RVal) (hm : validityMismatch ⟨o.tva, o.tvb⟩ rv = true) :
+    ∃ st, sshSign ca prov t o req key rv = .refused st := by
+  unfold sshSign
+  split
+  · exact ⟨401, rfl⟩
+  · split
+    · exact ⟨401, rfl⟩
+    · unfold signSSH
+      split
+      · exact ⟨400, rfl⟩
+      · split
+        · rename_i st _; exact ⟨st, rfl⟩
+        · exact ⟨403, by simp⟩
+
+/-- the bounds of the request are used when the token is silent, and validAfter > validBefore in a
+    request is refused -/
+theorem request_validity_shape (ca : CAKeys) (prov : Prov) (t : Token) (o : Oidc) (req : Opts)
+    (key : KeyClass) (rv : RVal) (c : Cert) (sg : Signer)
+    (h : sshSign ca prov t o req key rv = .issued c sg) :
+    modifyValidityBad rv = false ∧
+    (o.tva = none → (certValidity ⟨o.tva, o.tvb⟩ rv).va = rv.va) ∧
+    (o.tvb = none → (certValidity ⟨o.tva, o.tvb⟩ rv).vb = rv.vb) := by
+  obtain ⟨p, _, hs⟩ := sshSign_issued h
+  obtain ⟨_, _, _, _, _, _, _, _, _, hmv⟩ := signSSH_issued hs
+  exact ⟨hmv, fun h1 => by simp [certValidity, h1], fun h1 => by simp [certValidity, h1]⟩
+
+example :
+    let t : Token := ⟨s "alice", some ⟨s "user", [], []⟩⟩
+    let o : Oidc := ⟨[], [], [], [], [], some 3600, some 14400⟩
+    sshSign ⟨true, true, true, true⟩ .jwk t o ⟨[], [], []⟩ .ok ⟨some 3600, none⟩ = .issued ⟨1, s "alice", [s "alice"]⟩ .userKey ∧
+    sshSign ⟨true, true, true, true⟩ .jwk t o ⟨[], [], []⟩ .ok ⟨some 5400, none⟩ = .refused 403 ∧
+    sshSign ⟨true, true, true, true⟩ .jwk t o ⟨[], [], []⟩ .ok ⟨none, some 18000⟩ = .refused 403 ∧
+    certValidity ⟨o.tva, o.tvb⟩ ⟨some 3600, none⟩ = ⟨some 3600, some 14400⟩ := by decide
+
+/-! ## 2c. K8sSA -/
+
+/-- **k8ssa_fields_from_request.** A Kubernetes service-account token fixes nothing: type, key id
+    and principals of the certificate are the request's, all three non-empty (request template +
+    require-all validator); the signer still follows the type. Recorded as a fact: the property's
+    "stated in the token" has no content for this provisioner. -/
+theorem k8ssa_fields_from_request (ca : CAKeys) (t : Token) (o : Oidc) (req : Opts) (key : KeyClass) (rv : RVal)
+    (c : Cert) (sg : Signer) (h : sshSign ca .k8ssa t o req key rv = .issued c sg) :
+    certTypeFromString req.certType = some (if c.ct = 1 then CT.user else CT.host) ∧
+    c.keyID = req.keyID ∧ c.principals = req.principals ∧ req.principals ≠ [] ∧ req.keyID ≠ [] := by
+  obtain ⟨p, hp, hs⟩ := sshSign_issued h
+  obtain ⟨_, hc, ht, _, _, hid, _⟩ := signSSH_issued hs
+  have hp := (authorizeSign_ok hp).2
+  simp only [authorizeClaims] at hp
+  injection hp with hp
+  subst hp
+  simp only [applyTemplate] at ht
+  simp only [checkOpts] at hc
+  split at hc
+  · rename_i hr
+    simp only [requireAll, Bool.and_eq_true, decide_eq_true_eq] at hr
+    cases hct : certTypeFromString req.certType with
+    | none => simp [hct] at ht
+    | some ct =>
+      simp only [hct] at ht
+      injection ht with ht
+      subst ht
+      refine ⟨?_, rfl, rfl, ?_, hr.1.2⟩
+      · cases ct <;> simp [CT.num]
+      · intro he; rw [he] at hr; simp at hr
+  · cases hc
+
+/-! ## 2d. add-user certificate -/
+
+/-- **adduser_fields.** The extra certificate `/ssh/sign` returns for an `addUserPublicKey` exists
+    only next to a *user* certificate with a single principal (or two, the second an e-mail
+    address); it never carries the subject's principals: its only principal is `provisioner`, its
+    key id is `<first principal>-provisioner` and its forced command names that first principal. -/
+theorem adduser_fields (subject : Cert) (a : AddUser) (h : signAddUser subject = some a) :
+    subject.ct = 1 ∧
+    (∃ p, (subject.principals = [p] ∨ ∃ b, subject.principals = [p, b] ∧ atAfterFirst b = true) ∧
+      a.keyID = p ++ s "-" ++ addUserPrincipal ∧ a.forceCommand = addUserCommand p) ∧
+    a.principals = [addUserPrincipal] := by
+  unfold signAddUser at h
+  split at h
+  · rename_i hv
+    simp only [validForAddUser, Bool.and_eq_true, decide_eq_true_eq] at hv
+    obtain ⟨hct, hp⟩ := hv
+    split at h
+    · rename_i p rest hpr
+      injection h with h; subst h
+      refine ⟨hct, ⟨p, ?_, rfl, rfl⟩, rfl⟩
+      rw [hpr] at hp
+      cases rest with
+      | nil => exact .inl hpr
+      | cons b rest2 =>
+        cases rest2 with
+        | nil => exact .inr ⟨b, hpr, by simpa using hp⟩
+        | cons _ _ => simp at hp
+    · cases h
+  · cases h
+
+/-- a host certificate, or a user certificate with several principals, gets no add-user certificate -/
+theorem adduser_none (subject : Cert) (h : subject.ct ≠ 1 ∨ subject.principals.length > 2 ∨ subject.principals = []) :
+    signAddUser subject = none := by
+  unfold signAddUser validForAddUser
+  rcases h with h | h | h
+  · simp [h]
+  · match hp : subject.principals with
+    | [] => simp
+    | [_] => simp [hp] at h
+    | [_, _] => simp [hp] at h
+    | _ :: _ :: _ :: _ => simp
+  · simp [h]
+
+/-- **adduser_total.** The add-user step never aborts, with or without an `ssh` section in the
+    configuration (since 0de53a5), and is `signAddUser`. -/
+theorem adduser_total (sshSection : Bool) (subject : Cert) :
+    signAddUserM true sshSection subject = .val (signAddUser subject) := by
+  unfold signAddUserM
+  cases signAddUser subject <;> rfl
+
+/-- historic (before 0de53a5, `nilGuard = false`): on an authority whose SSH signers come from
+    `WithSSHUserSigner` / `WithSSHHostSigner` and whose configuration has no `ssh` section, a sign
+    request with an `addUserPublicKey` for a qualifying user certificate panicked in
+    `getAddUserPrincipal` (nil `a.config.SSH`). -/
+theorem adduser_crash_without_ssh_section :
+    signAddUserM false false ⟨1, s "alice", [s "alice"]⟩ = .crash := by decide
+
+example : signAddUser ⟨1, s "alice", [s "alice"]⟩ =
+    some ⟨s "alice-provisioner", [s "provisioner"], s "sudo useradd -m alice; nc -q0 localhost 22"⟩ := by decide
+
 /-! ## 3. empty principals -/
 
 /-- **empty_principal_refused.** A request that lists an empty principal is refused, whatever
     the token says. -/
-theorem empty_principal_refused (ca : CAKeys) (prov : Prov) (t : Token) (o : Oidc) (req : Opts) (key : KeyClass)
-    (he : [] ∈ req.principals) : ∃ st, sshSign ca prov t o req key = .refused st := by
+theorem empty_principal_refused (ca : CAKeys) (prov : Prov) (t : Token) (o : Oidc) (req : Opts) (key : KeyClass) (rv : RVal)
+    (he : [] ∈ req.principals) : ∃ st, sshSign ca prov t o req key rv = .refused st := by
   have hv : validateOpts req = false := by
     unfold validateOpts
     have : req.principals.all (fun x => decide (x ≠ [])) = false := by
@@ -320,31 +480,31 @@ theorem empty_principal_refused (ca : CAKeys) (prov : Prov) (t : Token) (o : Oid
     principal in the token's `step.ssh.principals` reaches the certificate whenever the store
     accepts an empty key (no database configured). -/
 theorem token_empty_principal_issued :
-    ∃ ca t req c sg, sshSign ca .jwk t ⟨[], [], [], [], []⟩ req .ok = .issued c sg ∧ [] ∈ c.principals :=
+    ∃ ca t req c sg, sshSign ca .jwk t ⟨[], [], [], [], [], none, none⟩ req .ok noVal = .issued c sg ∧ [] ∈ c.principals :=
   ⟨⟨true, true, false, false⟩, ⟨s "alice", some ⟨s "user", [], [[]]⟩⟩, ⟨[], [], []⟩, ⟨1, s "alice", [[]]⟩, .userKey,
     by decide, by decide⟩
 
 /-- the witness above with the repaired validator: refused -/
 example :
-    sshSign ⟨true, true, false, true⟩ .jwk ⟨s "alice", some ⟨s "user", [], [[]]⟩⟩ ⟨[], [], [], [], []⟩ ⟨[], [], []⟩ .ok
+    sshSign ⟨true, true, false, true⟩ .jwk ⟨s "alice", some ⟨s "user", [], [[]]⟩⟩ ⟨[], [], [], [], [], none, none⟩ ⟨[], [], []⟩ .ok noVal
     = .refused 403 := by decide
 
 /-- **no_empty_principal.** With the repaired `sshCertDefaultValidator` (which refuses any `""` among
     the certificate's principals) no issued certificate has an empty principal — for every
     provisioner, token, request and template. -/
 theorem no_empty_principal (ca : CAKeys) (prov : Prov) (t : Token) (o : Oidc)
-    (req : Opts) (key : KeyClass) (c : Cert) (sg : Signer) (hfix : ca.emptyPrincipalCheck = true)
-    (h : sshSign ca prov t o req key = .issued c sg) : [] ∉ c.principals := by
+    (req : Opts) (key : KeyClass) (rv : RVal) (c : Cert) (sg : Signer) (hfix : ca.emptyPrincipalCheck = true)
+    (h : sshSign ca prov t o req key rv = .issued c sg) : [] ∉ c.principals := by
   obtain ⟨p, _, hs⟩ := sshSign_issued h
-  obtain ⟨_, _, _, _, _, _, _, hep⟩ := signSSH_issued hs
+  obtain ⟨_, _, _, _, _, _, _, hep, _⟩ := signSSH_issued hs
   exact hep hfix
 
 /-- **no_empty_principal_partial.** Under the extra hypothesis that the store refuses empty keys
     (bbolt) or that the token lists no empty principal, no issued certificate has one. -/
 theorem no_empty_principal_partial (ca : CAKeys) (prov : Prov) (hp : prov = .jwk ∨ prov = .x5c) (t : Token) (o : Oidc)
-    (req : Opts) (key : KeyClass) (c : Cert) (sg : Signer)
+    (req : Opts) (key : KeyClass) (rv : RVal) (c : Cert) (sg : Signer)
     (hx : ca.storeRejectsEmpty = true ∨ ∀ opts, t.ssh = some opts → [] ∉ opts.principals)
-    (h : sshSign ca prov t o req key = .issued c sg) : [] ∉ c.principals := by
+    (h : sshSign ca prov t o req key rv = .issued c sg) : [] ∉ c.principals := by
   obtain ⟨p, hp', hs⟩ := sshSign_issued h
   have hsub := (authorizeSign_ok hp').1
   obtain ⟨_, _, _, _, _, _, hst, _⟩ := signSSH_issued hs
@@ -353,7 +513,7 @@ theorem no_empty_principal_partial (ca : CAKeys) (prov : Prov) (hp : prov = .jwk
     have : c.principals.any (fun x => decide (x = [])) = true := by
       rw [List.any_eq_true]; exact ⟨[], hm, by simp⟩
     simp [storeOK, hx, this] at hst
-  · obtain ⟨opts, ct, h1, _, rfl⟩ := ssh_cert_fields ca prov hp t o req key c sg h
+  · obtain ⟨opts, ct, h1, _, rfl⟩ := ssh_cert_fields ca prov hp t o req key rv c sg h
     have := hx opts h1
     simp only [tokenCert]
     split
@@ -365,8 +525,8 @@ theorem no_empty_principal_partial (ca : CAKeys) (prov : Prov) (hp : prov = .jwk
 /-- **signer_by_type.** Every issued certificate is a user certificate signed with the user key or
     a host certificate signed with the host key, and that key is configured — for every
     provisioner, token, request and template. -/
-theorem signer_by_type (ca : CAKeys) (prov : Prov) (t : Token) (o : Oidc) (req : Opts) (key : KeyClass)
-    (c : Cert) (sg : Signer) (h : sshSign ca prov t o req key = .issued c sg) :
+theorem signer_by_type (ca : CAKeys) (prov : Prov) (t : Token) (o : Oidc) (req : Opts) (key : KeyClass) (rv : RVal)
+    (c : Cert) (sg : Signer) (h : sshSign ca prov t o req key rv = .issued c sg) :
     (c.ct = 1 ∧ sg = .userKey ∧ ca.user = true) ∨ (c.ct = 2 ∧ sg = .hostKey ∧ ca.host = true) := by
   obtain ⟨p, _, hs⟩ := sshSign_issued h
   obtain ⟨_, _, _, hsel, _⟩ := signSSH_issued hs
@@ -374,14 +534,14 @@ theorem signer_by_type (ca : CAKeys) (prov : Prov) (t : Token) (o : Oidc) (req :
 
 /-- a missing key refuses: no user certificate without the user key, no host certificate without
     the host key -/
-theorem missing_key_refused (ca : CAKeys) (prov : Prov) (t : Token) (o : Oidc) (req : Opts) (key : KeyClass)
-    (c : Cert) (sg : Signer) (h : sshSign ca prov t o req key = .issued c sg) :
+theorem missing_key_refused (ca : CAKeys) (prov : Prov) (t : Token) (o : Oidc) (req : Opts) (key : KeyClass) (rv : RVal)
+    (c : Cert) (sg : Signer) (h : sshSign ca prov t o req key rv = .issued c sg) :
     (ca.user = false → c.ct ≠ 1) ∧ (ca.host = false → c.ct ≠ 2) := by
-  rcases signer_by_type ca prov t o req key c sg h with ⟨h1, _, h3⟩ | ⟨h1, _, h3⟩
+  rcases signer_by_type ca prov t o req key rv c sg h with ⟨h1, _, h3⟩ | ⟨h1, _, h3⟩
   · exact ⟨fun hf => by simp [h3] at hf, fun _ => by omega⟩
   · exact ⟨fun _ => by omega, fun hf => by simp [h3] at hf⟩
 
-example : sshSign ⟨true, false, true, false⟩ .jwk ⟨s "h", some ⟨s "host", [], []⟩⟩ ⟨[], [], [], [], []⟩ ⟨[], [], []⟩ .ok = .refused 501 := by decide
+example : sshSign ⟨true, false, true, false⟩ .jwk ⟨s "h", some ⟨s "host", [], []⟩⟩ ⟨[], [], [], [], [], none, none⟩ ⟨[], [], []⟩ .ok noVal = .refused 501 := by decide
 
 /-! ## 5. pop_requirements, renew_keeps -/
 
@@ -533,8 +693,8 @@ example :
 
 /-- a non-administrator single-sign-on user only gets a *user* certificate whose key id is the
     e-mail address (the subject without one) and whose principals are the names derived from it -/
-theorem oidc_nonadmin_fields (ca : CAKeys) (t : Token) (o : Oidc) (req : Opts) (key : KeyClass)
-    (c : Cert) (sg : Signer) (h : sshSign ca (.oidc false) t o req key = .issued c sg) :
+theorem oidc_nonadmin_fields (ca : CAKeys) (t : Token) (o : Oidc) (req : Opts) (key : KeyClass) (rv : RVal)
+    (c : Cert) (sg : Signer) (h : sshSign ca (.oidc false) t o req key rv = .issued c sg) :
     c.ct = 1 ∧ sg = .userKey ∧
     c.keyID = (if o.email = [] then t.sub else o.email) ∧
     c.principals = (if o.email = [] then [] else o.usernames) := by
@@ -560,19 +720,19 @@ theorem oidc_nonadmin_fields (ca : CAKeys) (t : Token) (o : Oidc) (req : Opts) (
     the second one asks for other principals and another key id -/
 example :
     let t : Token := ⟨s "alice", some ⟨s "user", [], []⟩⟩
-    sshSign ⟨true, true, true, false⟩ .jwk t ⟨[], [], [], [], []⟩ ⟨[], [], []⟩ .ok = .issued ⟨1, s "alice", [s "alice"]⟩ .userKey ∧
-    sshSign ⟨true, true, true, false⟩ .jwk t ⟨[], [], [], [], []⟩ ⟨s "user", s "root", [s "root"]⟩ .ok = .issued ⟨1, s "alice", [s "alice"]⟩ .userKey := by
+    sshSign ⟨true, true, true, false⟩ .jwk t ⟨[], [], [], [], [], none, none⟩ ⟨[], [], []⟩ .ok noVal = .issued ⟨1, s "alice", [s "alice"]⟩ .userKey ∧
+    sshSign ⟨true, true, true, false⟩ .jwk t ⟨[], [], [], [], [], none, none⟩ ⟨s "user", s "root", [s "root"]⟩ .ok noVal = .issued ⟨1, s "alice", [s "alice"]⟩ .userKey := by
   decide
 
 /-- a request that tries to add a principal to the token's list is refused -/
 example :
-    sshSign ⟨true, true, true, false⟩ .x5c ⟨s "alice", some ⟨s "user", [], [s "alice"]⟩⟩ ⟨[], [], [], [], []⟩
-      ⟨[], [], [s "alice", s "root"]⟩ .ok = .refused 403 := by decide
+    sshSign ⟨true, true, true, false⟩ .x5c ⟨s "alice", some ⟨s "user", [], [s "alice"]⟩⟩ ⟨[], [], [], [], [], none, none⟩
+      ⟨[], [], [s "alice", s "root"]⟩ .ok noVal = .refused 403 := by decide
 
 /-- empty principal in the request (empty_principal_refused) -/
 example :
-    sshSign ⟨true, true, true, false⟩ .jwk ⟨s "alice", some ⟨s "user", [], []⟩⟩ ⟨[], [], [], [], []⟩
-      ⟨[], [], [s "alice", []]⟩ .ok = .refused 400 := by decide
+    sshSign ⟨true, true, true, false⟩ .jwk ⟨s "alice", some ⟨s "user", [], []⟩⟩ ⟨[], [], [], [], [], none, none⟩
+      ⟨[], [], [s "alice", []]⟩ .ok noVal = .refused 400 := by decide
 
 /-- rekey of a valid host certificate (pop_requirements_rekey / rekey_keeps hypotheses are satisfiable) -/
 example :
@@ -593,9 +753,9 @@ example :
 
 /-- OIDC non-administrator asking for a host certificate and foreign principals -/
 example :
-    sshSign ⟨true, true, true, false⟩ (.oidc false) ⟨s "123", none⟩ ⟨s "a@example.com", [s "a", s "a@example.com"], [], [], []⟩
-      ⟨[], s "root", [s "root"]⟩ .ok
+    sshSign ⟨true, true, true, false⟩ (.oidc false) ⟨s "123", none⟩ ⟨s "a@example.com", [s "a", s "a@example.com"], [], [], [], none, none⟩
+      ⟨[], s "root", [s "root"]⟩ .ok noVal
     = .issued ⟨1, s "a@example.com", [s "a", s "a@example.com"]⟩ .userKey ∧
-    sshSign ⟨true, true, true, false⟩ (.oidc false) ⟨s "123", none⟩ ⟨s "a@example.com", [s "a", s "a@example.com"], [], [], []⟩
-      ⟨s "host", [], []⟩ .ok = .refused 403 := by decide
+    sshSign ⟨true, true, true, false⟩ (.oidc false) ⟨s "123", none⟩ ⟨s "a@example.com", [s "a", s "a@example.com"], [], [], [], none, none⟩
+      ⟨s "host", [], []⟩ .ok noVal = .refused 403 := by decide
 end Verif.SSH
